@@ -47,6 +47,9 @@ var c04Profiles = &c04Signal{
 					for i := 0; i < p; i++ {
 						*ctr++
 						sa := pr.Sample().AppendEmpty()
+						if fat == c04Blank {
+							continue
+						}
 						sa.Value().Append(int64(*ctr))
 						if first && fat > 0 {
 							pr.StringTable().Append(strings.Repeat("x", fat))
@@ -92,7 +95,7 @@ func c04ObsProfiles(r c04Request) (items []string, count, units, bytes int) {
 				for q := 0; q < pr.Sample().Len(); q++ {
 					items = append(items, strings.Join([]string{"res=" + rv.Str(), "rschema=" + rp.SchemaUrl(), "scope=" + sp.Scope().Name() + "/" + sp.Scope().Version(),
 						"sschema=" + sp.SchemaUrl(), fmt.Sprintf("profile=%x/%s/%d", [16]byte(pr.ProfileID()), pr.OriginalPayloadFormat(), pr.StringTable().Len()),
-						fmt.Sprintf("i%d", pr.Sample().At(q).Value().At(0))}, "|"))
+						c04SampleID(pr.Sample().At(q))}, "|"))
 				}
 			}
 		}
@@ -111,4 +114,11 @@ func init() {
 
 func TestVerif(t *testing.T) {
 	c04Main(t, "profiles", []*c04Signal{c04Profiles})
+}
+
+func c04SampleID(sa pprofile.Sample) string {
+	if sa.Value().Len() == 0 {
+		return "i" // a sample without content (c04Blank)
+	}
+	return fmt.Sprintf("i%d", sa.Value().At(0))
 }
